@@ -20,5 +20,7 @@ def encodeBytes (m : Msg) : Bytes := QuickTimer.encodeBytes ops m
 def decode (buffer : Bytes) (msgLen : Nat) : Except DecErr (Msg × Bytes) := QuickTimer.decode ops buffer msgLen
 def canon (m : Msg) : String := QuickTimer.canon ops m
 def WF (m : Msg) : Prop := QuickTimer.WF m
+/-- run-time test of `WF` -/
+def wfBool (m : Msg) : Bool := QuickTimer.wfBool m
 
 end PyAirtouch.Model.At5.FF49
